@@ -5,6 +5,7 @@ marker; nothing is carried over into the next iteration."""
 import os, re, sys
 sys.path.insert(0, os.path.dirname(os.path.dirname(__file__)))
 import std_specs as S
+from engine.rsx import ScanError
 
 PROPERTIES = ["C07", "C05", "C06"]
 MIN_VERIFIED = 8
@@ -322,15 +323,16 @@ LOOP2 = r"""
 
 def entry_match_by_definition(fr):
     """V-COMB: `match M.entry(K) { Entry::Vacant(e) => { S } Entry::Occupied(mut e) => { T } }` by the definition of the Entry API."""
-    rx = re.compile(r'match (?P<m>[\w\.]+)\.entry\((?P<k>\w+)\) \{\s*Entry::Vacant\((?P<e1>\w+)\) => \{(?P<s>.*?)\}\s*Entry::Occupied\((mut )?(?P<e2>\w+)\) => \{(?P<t>.*?)\}\s*\}', re.S)
+    ws = r'(?:\s|//[^\n]*\n)*'
+    rx = re.compile(r'match (?P<m>[\w\.]+)\.entry\((?P<k>\w+)\) \{' + ws + r'Entry::Vacant\((?P<e1>\w+)\) => \{(?P<s>.*?)\}' + ws + r'Entry::Occupied\((mut )?(?P<e2>\w+)\) => \{(?P<t>.*?)\}\s*\}', re.S)
     m = rx.search(fr.text)
     if not m:
-        raise fr.ScanError(f"{fr.what}: V-COMB entry-match not found") if hasattr(fr, 'ScanError') else Exception('V-COMB entry-match not found')
+        raise ScanError(f"{fr.what}: V-COMB entry-match not found")
     mp, k, e1, e2 = m.group('m'), m.group('k'), m.group('e1'), m.group('e2')
     s, n1 = re.subn(r'\b' + e1 + r'\.insert\((?P<v>\w+)\);', lambda mm: f"{mp}.insert({k}, {mm.group('v')});", m.group('s'))
     t, n2 = re.subn(r'\b' + e2 + r'\.get_mut\(\)', f"{mp}.get_mut_some(&{k})", m.group('t'))
     if n1 != 1 or n2 != 1 or re.search(r'\b' + e1 + r'\b', s) or re.search(r'\b' + e2 + r'\b', t):
-        raise Exception('V-COMB entry-match: the arms use the entry in a way the definition template does not cover')
+        raise ScanError('V-COMB entry-match: the arms use the entry in a way the definition template does not cover')
     new = f"if !{mp}.contains_key(&{k}) {{ /*@vacant*/{s}}} else {{ /*@occupied*/{t}}}"
     fr.text = fr.text[:m.start()] + new + fr.text[m.end():]
     fr.note('V-COMB', 1, '`match M.entry(k) { Entry::Vacant(e) => { S; e.insert(v); } Entry::Occupied(mut e) => { T(e.get_mut()) } }` -> `if !M.contains_key(&k) { S; M.insert(k, v); } else { T(M.get_mut_some(&k)) }` (S, T verbatim)')
@@ -340,7 +342,7 @@ def entry_and_modify_or_insert(fr):
     rx = re.compile(r'(?P<m>[\w\.]+?)\s*\.entry\((?P<k>\w+)\)\s*\.and_modify\(\|(?P<e>\w+)\|\s*(?P<b>.*?)\)\s*\.or_insert\((?P<v>\w+)\);', re.S)
     m = rx.search(fr.text)
     if not m:
-        raise Exception('V-COMB and_modify/or_insert not found')
+        raise ScanError('V-COMB and_modify/or_insert not found')
     mp, k, e, b, v = re.sub(r'\s+', '', m.group('m')), m.group('k'), m.group('e'), m.group('b').strip(), m.group('v')
     new = f"if {mp}.contains_key(&{k}) {{ let {e} = {mp}.get_mut_some(&{k}); {b}; /*@modified*/ }} else {{ {mp}.insert({k}, {v}); }}"
     fr.text = fr.text[:m.start()] + new + fr.text[m.end():]
@@ -352,13 +354,13 @@ def extend_drain_map(fr):
     rx = re.compile(r'(?P<q>[\w\.]+?)\s*\.extend\(\s*(?P<m>[\w\.]+?)\s*\.drain\(\)\s*\.map\(\|\((?P<k>\w+), (?P<v>\w+)\)\|\s*\{', re.S)
     m = rx.search(fr.text)
     if not m:
-        raise Exception('V-ITER extend/drain/map not found')
+        raise ScanError('V-ITER extend/drain/map not found')
     s = fr._src()
     ob = m.end() - 1
     cb = s.match_close(ob)
     tail = re.match(r'\s*\)\s*\)\s*;', fr.text[cb + 1:])
     if not tail:
-        raise Exception('V-ITER extend/drain/map: unexpected text after the closure')
+        raise ScanError('V-ITER extend/drain/map: unexpected text after the closure')
     body = fr.text[ob:cb + 1]
     q, mp = re.sub(r'\s+', '', m.group('q')), re.sub(r'\s+', '', m.group('m'))
     new = (f"{{ let mut __d = {mp}.drain_all(); /*@drained*/\n"
